@@ -64,4 +64,22 @@ example : ((applyBatches (sys envEx) Book.init
     ((run (sys envEx) St.init histEx).sent ++ [(run (sys envEx) St.init histEx).queue])).w.sheets.map
       fun s => ((s.rowAt 2).height, s.grid)) = [(40, false)] := by decide
 
+/-- a row move over a hidden row: the engine moves row 2 by TWO (it skips hidden row 3) and records
+    that effective delta, so that undo, redo and the replica move by the same amount -/
+def histMove : List (Cmd User.Op) :=
+  [.op (.setRowsHeight 0 2 2 40), .op (.setRowsHidden 0 3 3 true), .op (.moveRows 0 2 1 1), .flush,
+   .undo, .redo]
+
+def recordedDelta : List Diff → Option Int
+  | [.moveRows _ _ _ d] => some d
+  | _ => none
+
+example : allDomB envEx St.init histMove = true := by decide
+example : ((run (sys envEx) St.init histMove).undo.head?.bind recordedDelta) = some 2 := by decide
+example : ((run (sys envEx) St.init histMove).w.sheets.map
+    fun s => ((s.rowAt 2).hidden, (s.rowAt 4).height)) = [(true, 40)] := by decide
+example : ((applyBatches (sys envEx) Book.init
+    ((run (sys envEx) St.init histMove).sent ++ [(run (sys envEx) St.init histMove).queue])).w.sheets.map
+      fun s => ((s.rowAt 2).hidden, (s.rowAt 4).height)) = [(true, 40)] := by decide
+
 end IronCalc.User.C03
